@@ -382,14 +382,14 @@ def run_queue_check(prop, tier, seed):
         return rep.finish()
     rng = random.Random(seed)
     thorough = tier == "thorough"
-    ex = gen_exhaustive(5 if thorough else 4, CAPS, ["1"] if not thorough else ["0", "1"])
+    ex = gen_exhaustive(6 if thorough else 4, CAPS, ["1"] if not thorough else ["0", "1", "2"])
     cases = list(ex)
     cases += gen_last_drop(rng)
     cases += gen_patterns(rng)
     cases += gen_payloads()
-    cases += gen_random(rng, 4000 if thorough else 400, 40)
-    soak = gen_soak(rng, 60 if thorough else 12, thorough)
-    sched = gen_schedules(7 if thorough else 6, [1, 2, None], rng, 3000 if thorough else 300, 30)
+    cases += gen_random(rng, 60000 if thorough else 400, 40)
+    soak = gen_soak(rng, 300 if thorough else 12, thorough)
+    sched = gen_schedules(8 if thorough else 6, [1, 2, None], rng, 30000 if thorough else 300, 30)
     try:
         impl = common.run_harness("queue", cases, shards=common.NCPU)
         model = common.run_model("queue", [as_plain_drop(c) for c in cases])
